@@ -1,5 +1,6 @@
 import SamVerif.Props.C08
 import SamVerif.Props.C09
+import SamVerif.Lemmas.FmtDoc
 /-!
 # C08 composed with C09 (builder-C09's layout engine and import models)
 
@@ -9,6 +10,12 @@ property text that C08's own models do not speak about:
 * "× line widths": C08's models are token-level; `Model/Doc.lean` (C09) is the layout engine.
 * "up to the documented merging and sorting of import lines": `Model/Imports.lean` (C09) is
   `source_module_to_document`'s import section (source_printer.rs:1260-1302).
+
+Round 6: `Model/FmtDoc.lean` is the printer one level earlier — `docOf e` is the `Document` that
+`create_doc` builds for an expression of `Model/FmtFull.lean` (dotted chains with their three layouts,
+calls and tuples, unary/binary, if-else flattened ∪ expanded, match, lambda, blocks with statements),
+and the theorems below say that *every* layout alternative of *every* `Union` in it reads the token
+sequence `printE e`, so that the round-trip theorems of `Props/C08.lean` hold at every line width.
 -/
 namespace SamVerif.C08b
 open SamVerif.Doc SamVerif.Imports
@@ -51,5 +58,65 @@ theorem imports_same_up_to_merge_sort (imps : List Import) :
     simp only
     rw [← this]
     exact sortBy_perm _ _
+
+/-! ## The document of an expression: every layout is the printed token sequence -/
+
+open SamVerif.FmtDoc SamVerif.FmtFull
+
+/-- **Every `Union` of the document of an expression offers the same text in both branches** — the
+flattened, less-expanded and expanded layouts of a dotted chain, the flattened and expanded if-else,
+the one-line and broken forms of every bracket: whatever the layout engine picks, no token is lost,
+added or reordered.  (`L.Ok`: the same holds inside the opaque leaves.) -/
+theorem doc_unions_agree (L : Leaves) (hL : L.Ok) (e : Expr) : Agree textKey (docOf L e) :=
+  (ir_ok L hL e).doc.1
+
+/-- The text of the document is the printed token sequence of `Model/FmtFull.lean`. -/
+theorem doc_reads_printed_tokens (L : Leaves) (hL : L.Ok) (e : Expr) :
+    val textKey (docOf L e) = chars L (printE e) :=
+  (ir_ok L hL e).doc.2
+
+/-- **For every width, the tokens the layout engine emits for `docOf e` are `printE e`**
+(`∀ w, tokens (layout w (docOf e)) = tokensOf e`). -/
+theorem layout_tokens_every_width (L : Leaves) (hL : L.Ok) (e : Expr) (w : Nat) :
+    tval textKey (tokens w (docOf L e)) = chars L (printE e) := by
+  rw [layout_preserves_text textKey w _ (doc_unions_agree L hL e), doc_reads_printed_tokens L hL e]
+
+/-- String level: for every width, the non-whitespace characters of the formatted expression are
+those of `printE e`. -/
+theorem formatted_text_every_width (L : Leaves) (hL : L.Ok) (e : Expr) (w : Nat) :
+    nonWs (prettyPrint w (docOf L e)) = chars L (printE e) := by
+  rw [pretty_print_preserves_text w _ (doc_unions_agree L hL e), doc_reads_printed_tokens L hL e]
+
+/-- **Round trip at every width**: at every line width the formatted expression consists of exactly
+the tokens `printE e`, and these parse back to `regroup e` (`roundtrip_expr_total`), which denotes the
+same program (`format_preserves_meaning`). -/
+theorem roundtrip_every_width (L : Leaves) (hL : L.Ok) (e : Expr) (w : Nat) :
+    nonWs (prettyPrint w (docOf L e)) = chars L (printE e) ∧ parseE (printE e) = some (regroup e) :=
+  ⟨formatted_text_every_width L hL e w, roundtrip_expr_total e⟩
+
+/-- The obligation is not vacuous and not trivially true: a chain document whose expanded layout has
+lost the first member (the shape of the seeded fault C08f) has a `Union` whose branches differ. -/
+theorem chain_layout_losing_a_member_counterexample :
+    ¬ Agree textKey (.union (concatV [.nstext ['a'], .text ['.'], .nstext ['b'], .text ['.'], .nstext ['c']])
+      (concatV [.nstext ['a'], .nest 2 (concatV [.lineHard, .text ['.'], .nstext ['c']])])) := by
+  intro h
+  exact absurd h.1 (by decide)
+
+/-- Leaves that satisfy `L.Ok` (identifiers as non-static text, no type arguments / annotations). -/
+def plainLeaves : Leaves :=
+  ⟨fun a => .nstext (Nat.repr a).toList, fun p => .nstext (Nat.repr p).toList, fun _ => .nil,
+   fun k => .nstext (Nat.repr k).toList, fun k => .nstext (Nat.repr k).toList, fun _ => .nil,
+   fun k => .nstext (Nat.repr k).toList⟩
+
+theorem plainLeaves_ok : plainLeaves.Ok :=
+  ⟨fun _ => trivial, fun _ => trivial, fun _ => trivial, fun _ => trivial, fun _ => trivial,
+   fun _ => trivial, fun _ => trivial⟩
+
+/-- `a.b` really is a `Union` of three layouts. -/
+example : docOf plainLeaves (.post (.atom 0) 1 true) =
+    .union (concatV [.nstext ['0'], .nil, .text ['.'], .nstext ['1'], .nil])
+      (.union (concatV [.nstext ['0'], .nil, .text ['.'], concatV [.nstext ['1'], .nil], .nest 2 .nil])
+        (concatV [.nstext ['0'], .nest 2 (concatV [.lineHard, .text ['.'], .nstext ['1'], .nil])])) := by
+  decide
 
 end SamVerif.C08b
